@@ -223,13 +223,13 @@ func init() {
 		return &Check{ID: "C15",
 			Runs: []Run{{S: sc, Opt: map[Tier]Options{
 				Quick:    {Depth: 2, Budget: 150 * time.Second, ReplayEvery: 16},
-				Thorough: {Depth: 4, Budget: 30 * time.Minute, ReplayEvery: 32, MaxStates: 60000},
+				Thorough: {Depth: 4, Budget: 10 * time.Minute, ReplayEvery: 32, MaxStates: 60000},
 			}}, {S: rich, Opt: map[Tier]Options{
 				Quick:    {Depth: 2, Budget: 150 * time.Second, ReplayEvery: 16},
-				Thorough: {Depth: 4, Budget: 30 * time.Minute, ReplayEvery: 32, MaxStates: 60000},
+				Thorough: {Depth: 4, Budget: 10 * time.Minute, ReplayEvery: 32, MaxStates: 60000},
 			}}, {S: many, Opt: map[Tier]Options{
 				Quick:    {Depth: 1, Budget: 100 * time.Second, ReplayEvery: 4},
-				Thorough: {Depth: 2, Budget: 20 * time.Minute, ReplayEvery: 8, MaxStates: 60000},
+				Thorough: {Depth: 2, Budget: 5 * time.Minute, ReplayEvery: 8, MaxStates: 60000},
 			}}},
 			Owns: ownsAny("genesis."),
 			Extra: func(t Tier, ev *Evidence) []Violation {
